@@ -58,6 +58,7 @@ type feCase struct {
 	DeployMs   int    // > 0: every deployment of an item plugin takes this long ...
 	DeployHard bool   // ... and does not watch its context while it works (like go.flow.arcalot.io/testdeployer)
 	ClosureMs  int    // >= 0: closure_wait_timeout of the sub-workflow's step (ms); -1 = omitted (provider default)
+	LogAll     bool   // every step output is logged (config.LoggedOutputConfigs), parent and sub-workflows alike
 }
 
 const feItemObject = `    Item:
@@ -273,6 +274,23 @@ func feGen(r *rng, tier string, closeMode bool) *feCase {
 // longer than every timer constant the fact extractor finds inside the foreach provider.
 // big-list (C13, "for all item lists"): more items than any plausible batch size, failures on both sides of the powers of two
 // and in the last item; all items return at once, parallelism is large so that the case stays cheap.
+// logged-list: every item succeeds, the loop's own `success` output (a list of 17..60 entries, some of them long texts) and the
+// outputs of the items' steps are logged.  What is logged may be abbreviated; what is returned may not.
+func feGenLoggedList(r *rng) *feCase {
+	c := &feCase{CloseAfter: -1, ClosureMs: -1, Class: "logged-list", DelayMode: "zero", ParMode: "literal", LogAll: true,
+		DeclAlt: r.chance(1, 2), DeclErr: r.chance(1, 2), DeclFailed: true}
+	n := 17 + r.intn(44)
+	c.Par = []int{1, 4, 16}[r.intn(3)]
+	c.Items = feGenItems(r, "g", n, 0, 0, "zero")
+	for j := range c.Items {
+		if r.chance(1, 5) {
+			c.Items[j].Key = c.Items[j].Key + strings.Repeat("x", 300+r.intn(500))
+		}
+	}
+	c.EstimatedMs = 4*n/c.Par + 200
+	return c
+}
+
 func feGenBigList(r *rng) *feCase {
 	c := &feCase{CloseAfter: -1, ClosureMs: -1, Class: "big-list", DelayMode: "zero", ParMode: "literal",
 		DeclAlt: r.chance(1, 2), DeclErr: r.chance(1, 2), DeclFailed: true}
@@ -404,6 +422,8 @@ func execForeachCase(caseID string, c *feCase) map[string]any {
 	}
 	currentScript.Store(s)
 	itemDeployHard.Store(c.DeployHard)
+	logAllOutputs = c.LogAll
+	defer func() { logAllOutputs = false }()
 	defer itemDeployHard.Store(false)
 	base := runtime.NumGoroutine()
 	reg, f, err := newItemRegistry()
@@ -543,6 +563,9 @@ func cmdForeach(args []string) int {
 		}
 		for i := 0; i < nBig; i++ {
 			w.emit(execForeachCase(fmt.Sprintf("foreach-big-%d-%d", c.seed, i), feGenBigList(r.fork())))
+		}
+		for i := 0; i < 2*nBig; i++ {
+			w.emit(execForeachCase(fmt.Sprintf("foreach-logged-%d-%d", c.seed, i), feGenLoggedList(r.fork())))
 		}
 		for i := 0; i < nLong; i++ {
 			w.emit(execForeachCase(fmt.Sprintf("foreach-long-%d-%d", c.seed, i), feGenLongQueue(r.fork(), longMs, i+int(c.seed))))
